@@ -55,6 +55,7 @@ def generate(tier, rng):
     # corpus: inputs that crashed or hung the pinned snapshot (witnesses of fixed / known findings run first)
     corpus = ["> x", "2>&1", "< x", "<<< a", "echo a | > x", ">> y", "99999999999999999999 + 1", "2 ^ 64", "2 ^ -1", "1 / 0",
               "${$", "${HOME", "echo ${?x", "echo \"$HOME\nx\"", "{2147483640..2147483647}", "{-2147483648..-2147483640..3}", "echo {1..3}",
+              "echo {-1..2147483647..2147483647}", "{2147483647..-1..2147483647}", "{-2147483648..2147483647..2147483647}", "x{-2000000000..2000000000..2000000000}y",
               "(1 + 2", "1 +", "((2))", "2 ^ 3 ^ 2", "-9223372036854775808 / -1", "9223372036854775807 + 1", "1e5 + 1", "1. + 2", "a &", "&", "| a",
               "a | | b", "a ||", "'", "\"", "`", "\\", "a > b > c", "a 3> b", "a > &3", "X=1", "X=1 Y=2", "export PROMPT=$A x", "echo $(echo >)", "echo `a >`"]
     envc = gens.env_field(vars={"A": "va"}, exported={"HOME": "/h"}, cmds={"echo a": "a\n"})
